@@ -157,13 +157,18 @@ def check(ctx, run):
         run.fail(Finding("C05.R3", fi.qualname, f"dims {A.dims_seen}", "topk and mean must run along the requested dimension", file=str(prog.modules[fi.module].path), line=fi.node.lineno))
     # ---- R4 value at risk
     fi = E.functional(ctx, "value_at_risk")
-    res = one(ctx, fi, [], dict(input=x, p=p_, dim=0), n=3)
+    res = one(ctx, fi, [], dict(input=x, p=p_, dim=0), n=None)  # the number of branches is part of what is compared below
+    if not res:
+        raise AnalysisError("value_at_risk: no analysable path")
     A = SampleAlgebra(assume_positive={"p"})
     p = A.sym("p")
     seen = {}
     for r in res:
-        conds = [(A.conv(c), d) for c, d, _ in r["cond"]]
-        seen[tuple((str(c), d) for c, d in conds)] = A.conv(r["value"])
+        try:
+            conds = [(A.conv(c), d) for c, d, _ in r["cond"]]
+            seen[tuple((str(c), d) for c, d in conds)] = A.conv(r["value"])
+        except (NotImplementedError, TypeError) as ex:
+            seen[("not analysable: " + str(ex)[:60],)] = sp.Symbol("UNKNOWN")
     want = {
         ((str(sp.Le(p, 1 / Nn)), True),): MINR(xi),
         ((str(sp.Le(p, 1 / Nn)), False), (str(sp.Gt(p, 1 - 1 / Nn)), True)): MAXR(xi),
